@@ -11,7 +11,7 @@ import (
 
 func init() {
 	register(&Property{
-		ID: "C06",
+		ID:          "C06",
 		Explanation: "Decided for all CFG paths (= all crash points and injected store errors between individual store calls): every path that sets RequestVoteResponse.Granted=true passed the stale-term test, the known-leader test, the voter-membership test, successful reads of both persisted vote keys and then either the duplicate arm (same term, same candidate bytes) or the fresh arm (up-to-date ladder over all 9 orderings, successful persistVote of the very bytes compared); the persisted vote record is written so that its discriminating key (term) is written last; every setCurrentTerm call site is one of the 8 enumerated, each with a guard/argument that makes the term non-decreasing; the term is persisted before the in-memory update (else panic); NewRaft reloads the term before any goroutine starts; the pre-vote handler has no effect on term/vote.",
 		NotDecided:  "atomicity of a single Set/SetUint64 inside a third-party StableStore; that two runs agree.",
 		Assumptions: []string{"a StableStore Set/SetUint64 that returns nil is durable; one that returns an error may or may not have been applied"},
@@ -128,8 +128,8 @@ func c06R1(c *Ctx, rule string) {
 		}
 		return out
 	}(), map[string]string{
-		"(*Raft).requestVote":    "the vote handler",
-		"(*Raft).electSelf":      "self vote, after persistVote (R5/S-DURABLE)",
+		"(*Raft).requestVote": "the vote handler",
+		"(*Raft).electSelf":   "self vote, after persistVote (R5/S-DURABLE)",
 	})
 	for i, g := range grants {
 		key := fmt.Sprintf("requestVote:grant#%d", i+1)
